@@ -32,6 +32,8 @@ type FnResult struct {
 	Axioms    []string
 	Lemmas    []string
 	RetReach  string
+	// ParamTerms: SMT constants of the parameters, in order (replay)
+	ParamTerms []string
 }
 
 func newEnc(P *Program, fn *ssa.Function, c *Contract, W *World) *Enc {
@@ -369,6 +371,13 @@ func verifyFunction(P *Program, key string, opts *runOpts) *FnResult {
 	e.encodeTop()
 	res.Header, res.Axioms = e.header()
 	res.Items = e.items
+	if fn != nil {
+		for _, p := range fn.Params {
+			if v, ok := e.vals[p]; ok && v.Loc == nil {
+				res.ParamTerms = append(res.ParamTerms, v.T)
+			}
+		}
+	}
 	res.Obls = e.obls
 	res.Loops = len(e.top.loops)
 	for n := range e.notes {
